@@ -263,6 +263,13 @@ def build(tier="quick", seed=0):
 
             pack.add(Obligation(name, run, replay=lambda w: {"call": "c08_reader", "args": {"expr": w.get("expr"), "engine": w.get("engine")}}, functions=fu + ("flow.record.stream:RecordStreamReader.__iter__",), mode="one reader over a concrete stream of four record types"))
 
+    # an attribute of a field the record lacks (r.ts.year on a record without ts) is an operand like the missing field itself: the comparison is false, no error
+    for eng in ("Selector", "CompiledSelector"):
+        for expr in ("r.missing.year == 2020", "r.missing.year != 2020", "5 < r.missing.year", "r.missing.a.b >= 1", "r.missing.netloc in ['h', 'k']", "r.missing.year == r.n", "r.n > 0 and r.missing.year == 1", "r.missing.year <= 5 or r.missing.month > 1"):
+            name = f"C08.attr[{eng}, {expr}]"
+            pack.add(Obligation(name, lambda tier, name=name, eng=eng, expr=expr: prove_paths(name, lambda: run_selector(eng, expr), lambda p: falsy(p.value), witness_of(expr, "interp" if eng == "Selector" else "compiled")), replay=replay_req(True), functions=fu,
+                                mode="attribute chains on a missing field x comparison operators x both engines (representative)"))
+
     pack.add(Obligation("C08.canary", run_canary, kind="canary"))
 
     # ---- engine vs CPython: the same expressions evaluated concretely by pyvc and natively by the real code
